@@ -110,10 +110,12 @@ type gen struct {
 	guardArgs []*Val
 	univDone map[string]bool
 	preConj map[int]bool
+	callSites map[string][]token.Pos
 	unsupported int
 }
 
 type retPoint struct {
+	nAssume int
 	blk     *ssa.BasicBlock
 	vars    map[string]ssa.Value
 	st      *State
